@@ -438,7 +438,9 @@ def run(ctx):
     ksw = {k: v for k, v in sw.items() if k.startswith(("D12_", "D16_", "D17_", "D20_"))} or None
     rj = ctx.tlc_expect_ok("Join", "Join_quick.cfg" if quick else "Join_thorough.cfg", timeout=1500, deadlock=False,
                            overrides=jsw)
-    ctx.tlc_expect_ok("Join", "Join_ideal.cfg", timeout=600, deadlock=False, name="Join/ideal (deviations off)")
+    # (quick tier: the ideal configurations run one length bound lower to stay within the budget)
+    ctx.tlc_expect_ok("Join", "Join_ideal.cfg", timeout=600, deadlock=False, name="Join/ideal (deviations off)",
+                      overrides={"MaxLen1": "4", "MaxLenPre": "3"} if quick else None)
     # spec mutant: the selector of a busy action is evaluated -> TLC must reject it (its counterexamples are the directed
     # selector scenarios of the pipeline-level runs)
     rm = ctx.tlc("Join", "Join_mutsel.cfg", timeout=300, deadlock=False, name="Join/mutant M_BusyIgnoresSelector off")
@@ -447,7 +449,7 @@ def run(ctx):
     rk = ctx.tlc_expect_ok("K8sMultiline", "K8sMultiline_quick.cfg" if quick else "K8sMultiline_thorough.cfg",
                            timeout=1500, deadlock=False, overrides=ksw)
     ctx.tlc_expect_ok("K8sMultiline", "K8sMultiline_ideal.cfg", timeout=600, deadlock=False,
-                      name="K8sMultiline/ideal (deviations off)")
+                      name="K8sMultiline/ideal (deviations off)", overrides={"MaxLen": "3"} if quick else None)
     # repaired defects kept as spec mutants: the old behaviour must be rejected by TLC (a real-code regression is
     # caught by the replay, where the specification no longer excuses it)
     for cfgname, inv, what in (("K8sMultiline_mutD12.cfg", "NoPanic", "D12 empty log panics (before 850331b)"),
